@@ -962,8 +962,8 @@ theorem Inv.advance {o : CacheOps σ} {wf : σ → Prop} {f : File} {r : Reader 
     exact setB_other _ _ hne
 
 theorem BlkEq.advance {a b : RBlk} (h : BlkEq a b) (hd : a.hasData = true) (k : Nat) (u u' : Bool) :
-    BlkEq { a with pos := a.pos + k, offBlock := a.offBlock + k, used := u }
-      { b with pos := b.pos + k, offBlock := b.offBlock + k, used := u' } := by
+    BlkEq { a with pos := a.pos + k, offBlock := (a.offBlock + k) % 65536, used := u }
+      { b with pos := b.pos + k, offBlock := (b.offBlock + k) % 65536, used := u' } := by
   obtain ⟨h1, h2, h3, h4⟩ := h
   obtain ⟨h5, h6, h7, h8⟩ := h4 hd
   exact ⟨h1, by simp only; rw [h2], h3, fun _ => ⟨h5, h6, by simp only; rw [h7], h8⟩⟩
@@ -1133,8 +1133,8 @@ theorem byteFin_sim {o : CacheOps σ} {wf : σ → Prop} {f : File} {C U : Reade
   | some x =>
     simp only
     refine ⟨rfl, rfl, ⟨⟨?_, ?_, s.w.ucache, ?_, ?_, s.w.blocked, c, u, ?_, ?_, ?_⟩, s.err, ?_⟩⟩
-    · exact (s.w.invC.advance hc ((C.heap c).pos + 1) ((C.heap c).offBlock + 1) true).congr _ rfl rfl rfl rfl
-    · exact (s.w.invU.advance hu ((U.heap u).pos + 1) ((U.heap u).offBlock + 1) true).congr _ rfl rfl rfl rfl
+    · exact (s.w.invC.advance hc ((C.heap c).pos + 1) (((C.heap c).offBlock + 1) % 65536) true).congr _ rfl rfl rfl rfl
+    · exact (s.w.invU.advance hu ((U.heap u).pos + 1) (((U.heap u).offBlock + 1) % 65536) true).congr _ rfl rfl rfl rfl
     · simp only [RBlk.txOffset, hb.1, hb.2.1]
     · simp only [hb.1, hb.2.1]
     · simp [Reader.setB, hc]
@@ -1195,8 +1195,8 @@ theorem seekFin_sim {o : CacheOps σ} {wf : σ → Prop} {f : File} {C U : Reade
     have hnu : ¬ ((!(U.heap u).hasData) = true) := by rw [hdu]; simp
     rw [if_neg hn, if_neg hnu]
     refine ⟨rfl, ⟨⟨?_, ?_, w.ucache, rfl, rfl, w.blocked, c, u, ?_, ?_, ?_⟩, rfl, ?_⟩⟩
-    · exact (w.invC.advance hc blk blk (C.heap c).used).congr _ rfl rfl rfl rfl
-    · exact (w.invU.advance hu blk blk (U.heap u).used).congr _ rfl rfl rfl rfl
+    · exact (w.invC.advance hc blk (blk % 65536) (C.heap c).used).congr _ rfl rfl rfl rfl
+    · exact (w.invU.advance hu blk (blk % 65536) (U.heap u).used).congr _ rfl rfl rfl rfl
     · simp [Reader.setB, hc]
     · simp [Reader.setB, hu]
     · simp only [setB_same]
